@@ -45,8 +45,8 @@ class DocstringParser(AbstractDocstringParser):
     def get_class_documentation(self, class_node: nodes.ClassDef) -> ClassDocstring:
         griffe_node = self._get_griffe_node(class_node.fullname)
 
-        if griffe_node is None:  # pragma: no cover
-            raise TypeError(f"Expected a griffe node for {class_node.fullname}, got None.")
+        if griffe_node is None:
+            return ClassDocstring()
 
         description = ""
         docstring = ""
@@ -402,11 +402,15 @@ class DocstringParser(AbstractDocstringParser):
                 griffe_node = griffe_node.attributes[part]
             elif part == "__init__" and griffe_node.is_class:
                 return None
-            else:  # pragma: no cover
-                raise ValueError(
-                    f"Something went wrong while searching for the docstring for {qname}. Please make sure"
-                    " that all directories with python files have an __init__.py file.",
+            else:
+                # Griffe does not know every declaration Mypy finds, e.g. methods generated for dataclasses, overloads
+                # without an implementation or modules in directories without an __init__.py file
+                msg = (
+                    f"Could not find the docstring for {qname}. Please make sure that all directories with python files"
+                    " have an __init__.py file."
                 )
+                logging.warning(msg)
+                return None
 
         return griffe_node
 
